@@ -2,9 +2,34 @@
    1. the boundary-value problem of an elastic isotropic pipe (axisymmetric generalised plane strain, small strain),
    2. the closed-form Lame solution (the oracle that the execution stage compares mtest with),
    3. what a 1D Lagrange element and a Gauss rule have to satisfy. *)
-From Coq Require Import Reals List.
+From Coq Require Import ZArith QArith Reals List.
 From Coquelicot Require Import Coquelicot.
 Import ListNotations.
+
+(* abstract scalar: the closed form below and the element model (C53Model.v) are written once and instantiated
+   with R (theorems) and Q (exact execution, so that the oracle the check compares mtest with IS the proved one) *)
+Record Num (T : Type) := mkNum {
+  nadd : T -> T -> T; nsub : T -> T -> T; nmul : T -> T -> T; ndiv : T -> T -> T; nZ : Z -> T }.
+Arguments nadd {T}. Arguments nsub {T}. Arguments nmul {T}. Arguments ndiv {T}. Arguments nZ {T}.
+Definition RNum : Num R := mkNum R Rplus Rminus Rmult Rdiv IZR.
+Definition QNum : Num Q := mkNum Q Qplus Qminus Qmult Qdiv inject_Z.
+
+Section LameClosedForm.
+  Context {T : Type} (N : Num T).
+  Local Notation "a + b" := (nadd N a b).
+  Local Notation "a - b" := (nsub N a b).
+  Local Notation "a * b" := (nmul N a b).
+  Local Notation "a / b" := (ndiv N a b).
+  Definition lameA_G (Ri Re Pi Pe : T) : T := (Pi * Ri * Ri - Pe * Re * Re) / (Re * Re - Ri * Ri).
+  Definition lameB_G (Ri Re Pi Pe : T) : T := (Pi - Pe) * Ri * Ri * Re * Re / (Re * Re - Ri * Ri).
+  Definition lame_srr_G (Ri Re Pi Pe r : T) : T := lameA_G Ri Re Pi Pe - lameB_G Ri Re Pi Pe / (r * r).
+  Definition lame_stt_G (Ri Re Pi Pe r : T) : T := lameA_G Ri Re Pi Pe + lameB_G Ri Re Pi Pe / (r * r).
+  (* szz is uniform: value s *)
+  Definition lame_ezz_G (E nu Ri Re Pi Pe s : T) : T := (s - nZ N 2 * nu * lameA_G Ri Re Pi Pe) / E.
+  Definition lame_u_G (E nu Ri Re Pi Pe s r : T) : T :=
+    r * (lame_stt_G Ri Re Pi Pe r - nu * (lame_srr_G Ri Re Pi Pe r + s)) / E.
+End LameClosedForm.
+
 Local Open Scope R_scope.
 
 (* ---- isotropic Hooke law, components (rr, zz, tt) --------------------------------------------------- *)
@@ -28,14 +53,12 @@ Record pipe_bvp (E nu Ri Re Pi Pe Faxial : R) (u : R -> R) (ezz : R) (srr stt sz
 }.
 
 (* ---- Lame closed form --------------------------------------------------------------------------------- *)
-Definition lameA (Ri Re Pi Pe : R) : R := (Pi * Ri * Ri - Pe * Re * Re) / (Re * Re - Ri * Ri).
-Definition lameB (Ri Re Pi Pe : R) : R := (Pi - Pe) * Ri * Ri * Re * Re / (Re * Re - Ri * Ri).
-Definition lame_srr (Ri Re Pi Pe r : R) : R := lameA Ri Re Pi Pe - lameB Ri Re Pi Pe / (r * r).
-Definition lame_stt (Ri Re Pi Pe r : R) : R := lameA Ri Re Pi Pe + lameB Ri Re Pi Pe / (r * r).
-(* szz is uniform: value s *)
-Definition lame_ezz (E nu Ri Re Pi Pe s : R) : R := (s - 2 * nu * lameA Ri Re Pi Pe) / E.
-Definition lame_u (E nu Ri Re Pi Pe s r : R) : R :=
-  r * (lame_stt Ri Re Pi Pe r - nu * (lame_srr Ri Re Pi Pe r + s)) / E.
+Definition lameA := lameA_G RNum.
+Definition lameB := lameB_G RNum.
+Definition lame_srr := lame_srr_G RNum.
+Definition lame_stt := lame_stt_G RNum.
+Definition lame_ezz := lame_ezz_G RNum.
+Definition lame_u := lame_u_G RNum.
 (* axial stress for the two axial loadings used by the check *)
 Definition szz_no_axial_force : R := 0.                                              (* @AxialLoading 'None' *)
 Definition szz_end_cap (Ri Re Pi Pe : R) : R := lameA Ri Re Pi Pe.                   (* 'EndCapEffect' *)
